@@ -141,7 +141,7 @@ Lemma inv_ext_G X W D T G G' s : (forall o sl, G' o sl = G o sl) -> inv X W D T 
 Proof.
   intros E Hi.
   destruct Hi as [Aheap Amem1 Amem2 Aown Afresh Atag Adead Ainner Aitag Ainj Aiown Agin Apres Adev Abuf Acur Acurinj
-                  Ahand Avars Avinj AT ATnd Alive Alognd Alog AD Acs].
+                  Ahand Avars Avinj AT ATnd Alive Alognd Alog AD Acs Apb].
   constructor; try assumption; try (intros; rewrite ?E in *; eauto; fail).
   - eapply heap_ok_ext; eassumption.
   - intros o k Ha Ht Hw. specialize (Alive o k Ha Ht Hw). destruct k; rewrite E; exact Alive.
